@@ -336,28 +336,54 @@ func (m *Model) RunLayout(s *Sink, rule string) {
 			"reserve statements are not registered in the parser-level table")
 	}
 	// alias: ~name means <dir>/name
-	pas := m.Method("parser", "Parser", "parseAliasPathShortcut")
-	if pas != nil {
+	// the alias function is found by what it does: the parser function that tests the first byte of a name against '~'
+	var pas *ssa.Function
+	for _, fn := range m.ModFns {
+		if fn.Blocks == nil || shortPkg(fnPkgPath(fn)) != "parser" {
+			continue
+		}
+		for _, b := range fn.Blocks {
+			for _, in := range b.Instrs {
+				if bo, isBo := in.(*ssa.BinOp); isBo && (bo.Op == token.EQL || bo.Op == token.NEQ) {
+					if ix, isIx := bo.X.(*ssa.Index); isIx {
+						if k, isK := ix.Index.(*ssa.Const); isK && k.Value != nil && k.Int64() == 0 {
+							if c, isC := bo.Y.(*ssa.Const); isC && c.Value != nil && c.Int64() == '~' {
+								pas = fn
+							}
+						}
+					}
+				}
+			}
+		}
+	}
+	if pas == nil {
+		s.Violation(rule, "parser|~ alias", "-", "no parser function tests the first character of a name against '~': the alias for the layouts/components directories is not expanded")
+	} else {
 		want := map[string]string{"parseUseStmt": "layouts", "parseComponentStmt": "components"}
 		if node := m.CG.Nodes[pas]; node != nil {
 			for _, e := range node.In {
 				caller := e.Caller.Func
-				w, known := want[caller.Name()]
+				w, known := want[canonFnName(caller)]
 				if !known {
 					continue
 				}
-				got, _ := constOfValue(e.Site.Common().Args[1])
-				check(fnKey(caller)+"|~ stands for "+w+"/", m.InstrPos(e.Site), got == w, "parseAliasPathShortcut(\""+w+"\")", "the ~ alias is expanded to \""+got+"/\" instead of \""+w+"/\"")
+				got := ""
+				for _, a := range e.Site.Common().Args {
+					if k, isK := constOfValue(a); isK {
+						got = k
+					}
+				}
+				check(fnKey(caller)+"|~ stands for "+w+"/", m.InstrPos(e.Site), got == w, "the alias function is called with \""+w+"\"", "the ~ alias is expanded to \""+got+"/\" instead of \""+w+"/\"")
 			}
 		}
 		// only a leading ~ is rewritten
 		okLead := false
 		for _, b := range pas.Blocks {
 			for _, in := range b.Instrs {
-				if bo, isBo := in.(*ssa.BinOp); isBo && bo.Op == token.EQL {
+				if bo, isBo := in.(*ssa.BinOp); isBo && (bo.Op == token.EQL || bo.Op == token.NEQ) {
 					if ix, isIx := bo.X.(*ssa.Index); isIx {
-						if k, isK := ix.Index.(*ssa.Const); isK && k.Int64() == 0 {
-							if c, isC := bo.Y.(*ssa.Const); isC && c.Int64() == '~' {
+						if k, isK := ix.Index.(*ssa.Const); isK && k.Value != nil && k.Int64() == 0 {
+							if c, isC := bo.Y.(*ssa.Const); isC && c.Value != nil && c.Int64() == '~' {
 								okLead = true
 							}
 						}
